@@ -804,7 +804,7 @@ class Term:
     def occurs_var(self, t: Term) -> Term:
         """Whether the variable t occurs in self."""
         if self.is_svar():
-            return False
+            return self == t
         if self.is_var():
             return self == t
         elif self.is_const():
